@@ -82,8 +82,14 @@ class Ana:
         sl = self.nums['self_locking']
         # decision scales: relative 1e-9, and never finer than the library's absolute 1e-12 in the unit
         # the compared quantity is expressed in (defect D9 is recorded under C05, not re-reported here)
-        w0 = max(GEN.qsi(self.spec['motor']['w0']), 2e-3 * SI.FACT['AngularSpeed'][self.spec['ic']['speed']['u']])
-        Tmax = max(GEN.qsi(self.spec['motor']['Tmax']), 2e-3 * SI.FACT['Torque'][self.spec['motor']['Tmax']['u']])
+        if self.spec.get('_any_unit'):
+            # metamorphic runs (C07): the decision must be unit-independent, so the near-threshold zone covers the library's
+            # absolute 1e-12 tolerance in the *coarsest* unit of the kind
+            fw, ft = max(SI.FACT['AngularSpeed'].values()), max(SI.FACT['Torque'].values())
+        else:
+            fw, ft = SI.FACT['AngularSpeed'][self.spec['ic']['speed']['u']], SI.FACT['Torque'][self.spec['motor']['Tmax']['u']]
+        w0 = max(GEN.qsi(self.spec['motor']['w0']), 2e-3 * fw)
+        Tmax = max(GEN.qsi(self.spec['motor']['Tmax']), 2e-3 * ft)
         self.states = [None] * N
         self.info = [None] * N
         self.w_adv = [None] * N
